@@ -2784,6 +2784,11 @@ func (uconn *UConn) ApplyPreset(p *ClientHelloSpec) error {
 	uconn.echCtx = ech
 	hello := uconn.HandshakeState.Hello
 
+	// ALPN protocols are offered only by an ALPNExtension of the spec (its writeToUConn fills
+	// this field). Config.NextProtos alone puts nothing on the wire, so it must not make the
+	// client accept an ALPN protocol from the server.
+	hello.AlpnProtocols = nil
+
 	switch len(hello.Random) {
 	case 0:
 		hello.Random = make([]byte, 32)
